@@ -638,7 +638,7 @@ def run_check(check: Check, tier: str = "quick", seed: int = 0) -> int:
         exit_code = 1
         for l in out_lines:
             print(l)
-    elif errors:
+    elif errors and not (undecided and all(e.startswith("canary ") for e in errors)):
         exit_code = 3
         for e in errors:
             print(f"CHECKER-ERROR property={prop} {e}")
